@@ -9,6 +9,7 @@ from __future__ import annotations
 
 import copy
 import json
+import zlib
 
 from ..api import J, call
 from .. import gen, jwegen as g
@@ -30,6 +31,13 @@ RULE = ("base = valid JWE per (alg, enc, zip, curve, serialization, recipients, 
 ASSUMPTIONS = ["refjose decides whether an accepted serialization is authentic (AAD = ASCII of the received protected segment)",
                "shared-unprotected and per-recipient header members are authenticated only through what they feed; faults there are judged by refjose"]
 BUDGET = {"quick": 50.0, "thorough": 600.0}
+
+
+def as_given(token):
+    """compact tokens are accepted as str and as bytes: a third of them (chosen by content, so that a replay takes the same form) go in as bytes"""
+    if isinstance(token, str) and zlib.crc32(token.encode("utf-8", "surrogatepass")) % 3 == 0:
+        return token.encode("utf-8", "surrogatepass")
+    return token
 
 
 def shards(tier):
@@ -382,7 +390,7 @@ class Monitor:
         ctx = self.ctx
         ctx.ev()
         with self.tr.record() as ev:
-            o = call(ep, token, jkey, allow, jsender)
+            o = call(ep, as_given(token), jkey, allow, jsender)
         prim = len([e for e in ev if e[0] == "call"])
         case = {"family": family, "detail": detail, "entry": ep_name, "token": token, "recs": base.recs, "allow": allow,
                 "form": base.form, "policy": policy}
